@@ -24,7 +24,7 @@ static unsigned arr_seq;
 static unsigned last_wait;
 
 /* first raw hash seen per (session, mid) */
-static struct { int s, mid; uint32_t h; } firsts[1024];
+static struct { int s, mid, type; uint32_t h; } firsts[1024];
 static int nfirsts;
 
 static void log_tx(const sim_dgram_t *d) {
@@ -32,9 +32,9 @@ static void log_tx(const sim_dgram_t *d) {
   int i;
   if (!d->decoded) { sim_logf("tx@%llu:%d:raw", (unsigned long long)d->t, d->sess); return; }
   for (i = 0; i < nfirsts; i++)
-    if (firsts[i].s == d->sess && firsts[i].mid == d->mid) break;
+    if (firsts[i].s == d->sess && firsts[i].mid == d->mid && firsts[i].type == d->type) break;
   if (i == nfirsts) {
-    if (nfirsts < 1024) { firsts[nfirsts].s = d->sess; firsts[nfirsts].mid = d->mid; firsts[nfirsts].h = d->raw_hash; nfirsts++; }
+    if (nfirsts < 1024) { firsts[nfirsts].s = d->sess; firsts[nfirsts].mid = d->mid; firsts[nfirsts].type = d->type; firsts[nfirsts].h = d->raw_hash; nfirsts++; }
   } else if (firsts[i].h != d->raw_hash) same = '!';
   sim_logf("tx@%llu:%d:%c:%d:%c", (unsigned long long)d->t, d->sess, sim_kind[d->type], d->mid, same);
 }
@@ -76,11 +76,28 @@ static void inject(int s, int type, int code, int mid, int tok, int with_payload
   tk[0] = (uint8_t)(tok >> 8); tk[1] = (uint8_t)tok;
   n = sim_raw_msg(buf, type, code, mid, tk, tok >= 0 ? 2 : 0, (const uint8_t *)"x", with_payload ? 1 : 0);
   sim_inject_session(S[s], buf, n);
+  /* The ACK branch of coap_dispatch() leaves an lg_crcv (block layer: "a separate response may follow") behind for
+   * every acknowledged request, with its own expiry timer and its own NACK on disconnect.  That is C07/C09 state,
+   * not modelled here: the harness drops it at once so that the scenario stays within the message layer. */
+  coap_lock_lock(ctx, return);
+  while (S[s]->lg_crcv) {
+    coap_lg_crcv_t *lg = S[s]->lg_crcv;
+    LL_DELETE(S[s]->lg_crcv, lg);
+    coap_block_delete_lg_crcv(S[s], lg);
+  }
+  coap_lock_unlock(ctx);
 }
 static void rx_ack(int s, int mid) { inject(s, COAP_MESSAGE_ACK, 0, mid, -1, 0); }
 static void rx_rst(int s, int mid) { inject(s, COAP_MESSAGE_RST, 0, mid, -1, 0); }
 
-static void do_prepare(void) { last_wait = sim_prepare(ctx); }
+static unsigned long long last_e;   /* time from now to the earliest deadline in the send queue at the last prepare (0: none) */
+static void do_prepare(void) {
+  coap_tick_t dl = 0;
+  last_wait = coap_io_prepare_epoll(ctx, sim_now);
+  if (!sim_sendq_entry(ctx, 0, &dl) || dl <= sim_now) dl = sim_now;
+  last_e = dl - sim_now;
+  sim_logf("w@%llu=%u/%llu", (unsigned long long)sim_now, last_wait, last_e);
+}
 
 static void deliver_up_to(coap_tick_t target) {
   while (npend && pend[0].time <= target) {
@@ -95,12 +112,23 @@ static void advance(coap_tick_t target) {
   if (target > sim_now) sim_now = target;
   do_prepare();
 }
-static void next_step(void) {
-  coap_tick_t target = sim_now;
+/* `n`: run the timers, then sleep - for the wait the library returns, again and again - until the earliest queued
+ * deadline or the next arrival has been reached (an early wake-up caused by a timer the model does not know only
+ * adds a w token; a wait that is too long oversleeps the deadline and shows as a late transmission).
+ * Returns 0 when there was nothing to wait for. */
+static int next_step(void) {
+  coap_tick_t goal;
   int have = 0;
-  if (last_wait > 0) { target = sim_now + last_wait; have = 1; }
-  if (npend && (!have || pend[0].time < target)) target = pend[0].time;
-  advance(target);
+  do_prepare();
+  if (last_e > 0) { goal = sim_now + last_e; have = 1; }
+  if (npend && (!have || pend[0].time < goal)) { goal = pend[0].time; have = 1; }
+  if (!have) return 0;
+  for (int guard = 0; guard < 64 && sim_now < goal; guard++) {
+    coap_tick_t nxt = last_wait > 0 ? sim_now + last_wait : goal;
+    if (npend && pend[0].time < nxt) nxt = pend[0].time;
+    advance(nxt);
+  }
+  return 1;
 }
 
 static void dump(void) {
@@ -161,6 +189,9 @@ static int apply_ev(char *w) {
     coap_pdu_t *p;
     coap_mid_t res;
     if (s >= nS) return 0;
+    for (int i = 0; i < nfirsts; i++)                 /* a new message may re-use an id: its bytes are new */
+      if (firsts[i].s == s && firsts[i].mid == mid && firsts[i].type == (f[2][0] == 'c' ? COAP_MESSAGE_CON : COAP_MESSAGE_NON))
+        firsts[i] = firsts[--nfirsts];
     p = sim_make_pdu(S[s], f[2][0] == 'c' ? COAP_MESSAGE_CON : COAP_MESSAGE_NON, COAP_REQUEST_CODE_GET, mid, tk, 2, (const uint8_t *)"pl", 2);
     sim_prng_fill = (uint8_t)r;
     res = coap_send(S[s], p);
@@ -171,8 +202,7 @@ static int apply_ev(char *w) {
   if (!strcmp(f[0], "n") && n == 1) { next_step(); return 1; }
   if (!strcmp(f[0], "g") && n == 2 && allnum(f, 1, 2)) {
     int k = atoi(f[1]);
-    do_prepare();
-    for (int i = 0; i < k; i++) { if (last_wait == 0 && !npend) break; next_step(); }
+    for (int i = 0; i < k; i++) if (!next_step()) break;
     return 1;
   }
   if ((!strcmp(f[0], "a") || !strcmp(f[0], "r") || !strcmp(f[0], "b")) && n == 3 && allnum(f, 1, 3)) {
@@ -253,6 +283,10 @@ static void sq_log_mids(const int *m, int n) {
   sim_logf("%s", b);
 }
 
+static int sq_sess(coap_session_t **fs, coap_session_t *x) {
+  for (int i = 0; i < MAXS; i++) if (fs[i] == x) return i;
+  return -1;
+}
 static void do_sq(char **w, int n) {
   /* nodes carry a fake session pointer per session number and a real PDU (for the token / type) */
   coap_session_t *fs[MAXS];
@@ -282,12 +316,12 @@ static void do_sq(char **w, int n) {
     } else if (!strcmp(f[0], "p") && nf == 1) {
       coap_queue_t *q = coap_pop_next(ctx);
       if (!q) sim_logf("none");
-      else { sim_logf("%d.%d.%llu", sim_sess_id(q->session), (int)q->id, (unsigned long long)q->t); coap_delete_node_lkd(q); }
+      else { sim_logf("%d.%d.%llu", sq_sess(fs, q->session), (int)q->id, (unsigned long long)q->t); coap_delete_node_lkd(q); }
     } else if (!strcmp(f[0], "r") && nf == 3 && allnum(f, 1, 3)) {
       int s = atoi(f[1]);
       coap_queue_t *q = NULL;
       int r = (s < MAXS && fs[s]) ? coap_remove_from_queue(&ctx->sendqueue, fs[s], atoi(f[2]), &q) : 0;
-      if (r && q) { sim_logf("1:%d.%d.%llu", sim_sess_id(q->session), (int)q->id, (unsigned long long)q->t); coap_delete_node_lkd(q); }
+      if (r && q) { sim_logf("1:%d.%d.%llu", sq_sess(fs, q->session), (int)q->id, (unsigned long long)q->t); coap_delete_node_lkd(q); }
       else sim_logf("0");
     } else if (!strcmp(f[0], "j") && nf == 2 && allnum(f, 1, 2)) {
       sim_logf("%u", coap_adjust_basetime(ctx, strtoull(f[1], NULL, 10)));
@@ -315,7 +349,7 @@ static void do_sq(char **w, int n) {
     k += (size_t)snprintf(b + k, sizeof(b) - k, "%llu/", (unsigned long long)ctx->sendqueue_basetime);
     if (!ctx->sendqueue) k += (size_t)snprintf(b + k, sizeof(b) - k, "-");
     for (coap_queue_t *q = ctx->sendqueue; q && k + 64 < sizeof(b); q = q->next) {
-      k += (size_t)snprintf(b + k, sizeof(b) - k, "%s%d.%d.%llu", first ? "" : ",", sim_sess_id(q->session), (int)q->id, (unsigned long long)q->t);
+      k += (size_t)snprintf(b + k, sizeof(b) - k, "%s%d.%d.%llu", first ? "" : ",", sq_sess(fs, q->session), (int)q->id, (unsigned long long)q->t);
       first = 0;
     }
     sim_logf("%s", b);
